@@ -528,6 +528,9 @@ func main() {
 	}
 }
 
+// partialRun: VERIF_ONLY_HARNESS was given
+var partialRun bool
+
 func check(id, tier string) int {
 	plan, ok := plans[id]
 	if !ok {
@@ -535,6 +538,17 @@ func check(id, tier string) int {
 	}
 	if tier != "quick" && tier != "thorough" {
 		fatal2("tier must be quick or thorough")
+	}
+	if only := os.Getenv("VERIF_ONLY_HARNESS"); only != "" {
+		// development aid: run only the stages of one harness; such a run is not evidence
+		var keep []Stage
+		for _, st := range plan.Stages {
+			if st.Harness == only {
+				keep = append(keep, st)
+			}
+		}
+		plan.Stages = keep
+		partialRun = true
 	}
 	seed := envSeed()
 	fmt.Printf("SEED property=%s tier=%s VERIF_SEED=%d\n", id, tier, seed)
@@ -875,8 +889,8 @@ func writeEvidence(id, tier string, seed uint64, plan Plan, b *build, stages []*
 	}
 	jb, _ := json.MarshalIndent(ev, "", " ")
 	evDir := filepath.Join(verifDir, "evidence")
-	if repoDir != "/repo" {
-		// a run against a scratch tree is not evidence about /repo
+	if repoDir != "/repo" || partialRun {
+		// a run against a scratch tree (or of some stages only) is not evidence about /repo
 		evDir = filepath.Join(os.TempDir(), "fqsim-scratch-evidence")
 	}
 	os.MkdirAll(evDir, 0o755)
